@@ -12,7 +12,7 @@ from sa.report import Ctx
 
 from .common import generic_sweeps
 
-from .sat_common import check_binary_add
+from .sat_common import check_binary_add, check_input_copy
 from .cp_common import check_alldiff_coverage, check_constraint_table, check_small_semantics, check_cumulative_horizon, check_id_allocation, check_solve_is_read_only, check_domain_fields_fixed, check_report_filter, check_unsat_sites, flattener_tags, produced_tags, shape_dispatch_falls_through, structural_len_subjects
 
 EXPLANATION = (
@@ -351,6 +351,7 @@ def run(ctx: Ctx):
     ctx.step(check_unsat_sites, "C06-O13")
     # the encoder emits two-literal clauses with a repeated literal ([-b, -b] for x != x): the SAT back-end files them
     ctx.step(check_binary_add, "C06-O13")
+    ctx.step(check_input_copy, "C06-O13")  # the encoder emits clauses with a repeated literal ([-a, -a] for x != x, for a variable listed twice): none may be filtered away
     ctx.step(check_cumulative_horizon, "C06-O10")
 
     # O4 dispatch totality / expression tags
